@@ -37,6 +37,9 @@ def cases(tier, seed):
         out.append({"name": "timeout.sweep/client/%s|timer" % vop, "kind": "sweep", "victim": "client", "trigger": vop,
                     "second": "timer", "cap": cap})
     out.append({"name": "timeout.f_timeout/recreate", "kind": "recreate"})
+    for slow in (0.5, 2.0):
+        for nearby in (0.3, 1.0):
+            out.append({"name": "timeout.slow-submit/%s/%s" % (slow, nearby), "kind": "slowsubmit", "slow": slow, "nearby": nearby})
     for form in ("executor",):
         for what in ("resubmit", "submit_plain"):
             out.append({"name": "timeout.callback/%s/%s" % (form, what), "kind": "tcallback", "form": form, "what": what})
@@ -333,6 +336,37 @@ def run_recreate(case, res):
             end(ctx)
 
 
+def run_slowsubmit(case, res):
+    """A submit() on the executor takes time inside the delegate's submit() (a bounded queue, I/O): the deadlines of
+    futures already under way still pass on time."""
+    begin("vt")
+    ctx = Ctx()
+    try:
+        w = TW(ctx, "executor", default=50.0)
+        a = w.submit(case["nearby"])
+        b = w.submit(case["nearby"] + 0.05)
+        slow = {"on": True}
+
+        def auto(me, idx):
+            if slow["on"]:
+                slow["on"] = False
+                instr.pass_time(case["slow"])
+        w.me.auto = auto
+        act = ctx.actor("S", w.submit, 5.0).go()
+        if drive([act], use_time=False) != "ok" and not LM.deadlocks:
+            raise Inconclusive("slow submit did not return: " + instr.describe_threads())
+        w.me.auto = None
+        instr.advance(10.0)
+        res.execs += 1
+        check_common(res)
+        if w.judge(res, case["name"]):
+            res.key("slowsubmit", case["slow"], case["nearby"])
+        res.sample({"delegate_submit_takes": case["slow"], "timeouts_of_earlier_futures": [case["nearby"], case["nearby"] + 0.05],
+                    "cancel_arrivals": [(e[4]["tag"], round(e[1] - w.t0, 3)) for e in LOG.select("spy.cancel")]}, limit=1)
+    finally:
+        end(ctx)
+
+
 def run_tcallback(case, res):
     """A done-callback of a future that timed out uses the executor again (re-submits with a new timeout): it runs on
     the timeout thread, inside the cancel the thread has just delivered.  Later deadlines are still served."""
@@ -404,6 +438,8 @@ def run_case(case, res):
         return run_slowcancel(case, res)
     if case["kind"] == "tcallback":
         return run_tcallback(case, res)
+    if case["kind"] == "slowsubmit":
+        return run_slowsubmit(case, res)
     if case["kind"] == "gen":
         run_gen(case, res)
     elif case["kind"] == "recreate":
